@@ -13,7 +13,8 @@ CHECKS = {'C01': {'level': 'exploration',
                  'later: histories contain rolled-back transactions between the committed ones, row callbacks may end with a nested read-only '
                  'QueryAt of another row (moves the transaction cursor), bulk deletes also run [With/Without(name);] DeleteAll, and one history in '
                  'eight STARTS on a collection whose Restore from a truncated multi-block snapshot failed (the model starts from whatever Restore '
-                 'left behind)',
+                 'left behind) | since round 5: transaction bodies that PANIC between two steps (caller recovers) after update/delete-only prefixes '
+                 '- nothing of them may ever become visible',
          'assumptions': ["values are in the documented domain (strings <= 65535 bytes; SetAny/SetMany values have the column's Go type)",
                          'writes target rows that are live when issued (writes to dead offsets are outside the property)',
                          'histories are bounded: <= 3 blocks (offsets < 49152), ~30 actions, <= 12 steps per transaction'],
@@ -44,7 +45,11 @@ CHECKS = {'C01': {'level': 'exploration',
                  'is called under the block latch); failures are reported with program and stream and are not bit-reproducible | added later: '
                  '[With/Without(name);] DeleteAll transactions, first rolled back on the primary only, then committed on primary and twin; nested '
                  'read-only QueryAt at the end of row callbacks; one history in eight starts (primary and twin alike) after a failed Restore of a '
-                 'truncated multi-block snapshot',
+                 'truncated multi-block snapshot | since round 5 the concurrent programs (controlled and free-parallel) contain transactions that '
+                 'return an error after their last step (one in six; in "abort-heavy" free-parallel programs every second one, with mostly inserts): '
+                 'nothing of them may apply, be emitted or stay reserved | since round 5: transaction bodies that PANIC between two steps (caller '
+                 'recovers) after update/delete-only prefixes are treated like rolled-back ones (bodies that have inserted are not generated: a '
+                 'panic skips the rollback that releases reserved offsets, and the property speaks of bodies that RETURN an error)',
          'assumptions': ['in-flight observation happens from the same goroutine between two steps of the body (no latch is held there)',
                          'generator exclusions driven by known findings are counted in coverage.excluded_by_known_finding'],
          'tests': [{'run': '^TestC02$',
@@ -113,7 +118,10 @@ CHECKS = {'C01': {'level': 'exploration',
                  'of the rendered op list | thorough tier additionally runs the coverage-guided native fuzz target FuzzBufferOps (bytes decoded into '
                  'the same op grammar, semantic oracle inside the target) for 90 s on all cores; see coverage.native_fuzz_execs | big payloads '
                  '(TestC05Big): sequences of 30000..65535-byte strings whose total payload in ONE block crosses the 1 MiB block size of the s2 '
-                 'stream behind commit.Log (around 1, 2 and 3 MiB +- 70000 bytes), through every view incl. Log.Append/Range in memory and on a file',
+                 'stream behind commit.Log (around 1, 2 and 3 MiB +- 70000 bytes), through every view incl. Log.Append/Range in memory and on a file '
+                 '| since round 5: offset moves exactly at / next to the 2^7, 2^14, 2^21, 2^28 length boundaries of the variable-length delta (in '
+                 'the exhaustive alphabet and the random generator); every view is read a second time with the SAME reader after it ranged over '
+                 'blocks (Seek+Next, Seek+Rewind+Next, Rewind inside a Range callback)',
          'assumptions': ['offsets < 2^31 and byte strings <= 65535 bytes (format limits)',
                          'merge operations always carry a value (as every caller in kelindar/column does)'],
          'tests': [{'run': '^TestC05Exhaustive$', 'timeout': {'quick': 600, 'thorough': 3000}, 'env': {'GOMAXPROCS': 1}},
@@ -148,7 +156,10 @@ CHECKS = {'C01': {'level': 'exploration',
                  'order-sensitive merges, owned deletes, inserts; sparse and dense layouts, capacities 1/1024/16385) run with REAL parallelism on '
                  'all cores (common start barrier, pseudo-random processor yields at the hook points, also inside a block commit); the same oracles '
                  'are evaluated at quiescence from the recorded stream (record order of one block = apply order because the logger is called under '
-                 'the block latch); failures are reported with program and stream and are not bit-reproducible',
+                 'the block latch); failures are reported with program and stream and are not bit-reproducible | since round 5 the concurrent '
+                 'programs (controlled and free-parallel) contain transactions that return an error after their last step (one in six; in '
+                 '"abort-heavy" free-parallel programs every second one, with mostly inserts): nothing of them may apply, be emitted or stay '
+                 'reserved',
          'assumptions': ['the replica has the same schema (columns created at the same history points) and the same index definitions',
                          'comparison happens when the primary is quiescent'],
          'tests': [{'run': '^TestC06$',
@@ -205,7 +216,9 @@ CHECKS = {'C01': {'level': 'exploration',
                  'atomic counter (transaction begin/return, commit recorded, Snapshot call/return); the same per-block prefix oracle with lo_b = '
                  'commits of transactions that had returned before Snapshot was called and hi_b = position of the last commit whose transaction had '
                  'BEGUN before Snapshot returned (a commit reaches the snapshot recorder before the recording logger, so its own logical time may be '
-                 'later than the return); not bit-reproducible',
+                 'later than the return); not bit-reproducible | since round 5 the concurrent programs (controlled and free-parallel) contain '
+                 'transactions that return an error after their last step (one in six; in "abort-heavy" free-parallel programs every second one, '
+                 'with mostly inserts): nothing of them may apply, be emitted or stay reserved',
          'assumptions': ['controlled-schedule parts: context switches only at the verif yield points; free-parallel part: whatever the Go scheduler '
                          'produces on 16 cores',
                          'writers do not insert while known finding f10 (in-flight reservations visible to snapshots) is active - counted'],
@@ -240,7 +253,10 @@ CHECKS = {'C01': {'level': 'exploration',
                  'capacities 1/1024/16385) run with REAL parallelism on all cores (common start barrier, pseudo-random processor yields at the hook '
                  'points, also inside a block commit); the same oracles are evaluated at quiescence from the recorded stream (record order of one '
                  'block = apply order because the logger is called under the block latch); failures are reported with program and stream and are not '
-                 'bit-reproducible',
+                 'bit-reproducible | since round 5 the concurrent programs (controlled and free-parallel) contain transactions that return an error '
+                 'after their last step (one in six; in "abort-heavy" free-parallel programs every second one, with mostly inserts): nothing of them '
+                 'may apply, be emitted or stay reserved | since round 5 the free-parallel part also extends the time-to-live of the contended rows '
+                 'with txn.TTL().Extend (a merge into the deadline): final deadline = initial deadline + every committed extension',
          'assumptions': ["context switches happen only at the verif yield points and body yields (windows inside one buffer's apply loop are reached "
                          'only by the free-parallel part)',
                          'shared rows are never deleted by the generated programs (so the fold is well defined)'],
@@ -274,7 +290,9 @@ CHECKS = {'C01': {'level': 'exploration',
                  'mid-commit (>=1 apply step done, latch held) while readers ran; mode 2: a reader observed >=3 distinct committed versions of one '
                  'row; distinct = the generated case | added later: on keyed collections the readers also use QueryKey and the existing-key branch '
                  'of UpsertKey (point reads by key) in both modes; in the free-parallel mode a worker panic or workers that do not come back within '
-                 '30 s are reported',
+                 '30 s are reported | since round 5 two more reader styles: several txn.QueryAt point reads inside ONE transaction, and '
+                 'With(all).WithUnion(odd, even) over two indexes of one column that partition the rows (in the free-parallel part the union must '
+                 'always select all rows: no row is ever deleted there)',
          'assumptions': ["mode 1 decides by the invariant, never by timing: a slow machine can only make a reader count as 'blocked' (weaker), not "
                          'produce an alarm',
                          'rows whose three columns are all absent are not judged (deleted after the reader selected them, or an in-flight '
@@ -314,7 +332,9 @@ CHECKS = {'C01': {'level': 'exploration',
                  'holding nothing (on the real code it waits for the latch), the new row ends up with exactly what its insert stored, Count is '
                  'unchanged; non-trivial = the insert was handed the freed offset while the commit was parked | stream follower: at the end of every '
                  'sequential history a second collection replays the recorded change stream and must equal the model as well (re-used offsets carry '
-                 'no stale data there either)',
+                 'no stale data there either) | since round 5 the concurrent programs (controlled and free-parallel) contain transactions that '
+                 'return an error after their last step (one in six; in "abort-heavy" free-parallel programs every second one, with mostly inserts): '
+                 'nothing of them may apply, be emitted or stay reserved',
          'assumptions': ['free-parallel runs are not bit-reproducible: the replay re-runs the generated program (schedule left to the Go runtime)'],
          'tests': [{'run': '^TestC11$',
                     'checks': {'quick': 200, 'thorough': 2000},
@@ -356,7 +376,10 @@ CHECKS = {'C01': {'level': 'exploration',
                  "operations for fresh keys INSIDE the body of transaction A between A's steps (deterministic stand-in for a concurrent writer; B "
                  'never deletes, so f26 and f17 are not touched); every step is judged against the committed table at issue time and the final state '
                  'against the reference map | added later: row callbacks of InsertKey/UpsertKey/QueryKey may end with a nested read-only QueryAt of '
-                 'another row on the same transaction (the transaction cursor moves before the call returns)',
+                 'another row on the same transaction (the transaction cursor moves before the call returns) | since round 5: a stream follower '
+                 'replays the change stream at intermediate points and at the end and must pass the same key-lookup checks; one history in eight '
+                 'starts after a failed Restore of a truncated snapshot (the expected state comes from a probe collection, the collection under test '
+                 'runs no transaction before the first generated one)',
          'assumptions': ['existence is judged against the committed table when the operation is issued (documented mechanism)',
                          'the key column is written only through InsertKey/UpsertKey/SetKey (SetAny on the key column bypasses the duplicate test '
                          'and is outside the property)'],
@@ -420,7 +443,7 @@ CHECKS = {'C01': {'level': 'exploration',
                  'by a successful restore comparison; distinct = (collection, plan) | added later: in one snapshot call out of four a SECOND '
                  'Snapshot call is issued at a drawn yield point of the one in progress (from the snapshotting goroutine itself): it may be refused '
                  'or succeed, must leave no temp file or descriptor behind, and when it returns nil its output must restore to the row count of that '
-                 'moment',
+                 'moment | since round 5: the first healthy snapshot of every case is restored and compared (also for collections without rows)',
          'assumptions': ['fault positions are enumerated per collection as described; which collections are tried is random (rapid)',
                          'descriptor/file leaks are counted by name pattern column_*.log so unrelated runtime descriptors cannot alarm'],
          'tests': [{'run': '^TestC14$',
@@ -444,7 +467,13 @@ CHECKS = {'C01': {'level': 'exploration',
                  'owned deletes, inserts; sparse and dense layouts, capacities 1/1024/16385) run with REAL parallelism on all cores (common start '
                  'barrier, pseudo-random processor yields at the hook points, also inside a block commit); the same oracles are evaluated at '
                  'quiescence from the recorded stream (record order of one block = apply order because the logger is called under the block latch); '
-                 'failures are reported with program and stream and are not bit-reproducible',
+                 'failures are reported with program and stream and are not bit-reproducible | since round 5 the concurrent programs (controlled and '
+                 'free-parallel) contain transactions that return an error after their last step (one in six; in "abort-heavy" free-parallel '
+                 'programs every second one, with mostly inserts): nothing of them may apply, be emitted or stay reserved | relay (since round 5): a '
+                 'second collection with a logger of its own replays every emitted commit, interleaved with local writes into the same block; the '
+                 'stream IT emits must satisfy the same invariants (exactly one commit per replayed commit / local write, distinct non-zero IDs, '
+                 'per-block increasing in its own apply order); transaction bodies that panic between steps (update/delete-only prefixes) emit '
+                 'nothing',
          'assumptions': ['record order at the logger is apply order (Append is called under the block latch)'],
          'tests': [{'run': '^TestC15$',
                     'checks': {'quick': 250, 'thorough': 2500},
@@ -479,13 +508,20 @@ CHECKS = {'C01': {'level': 'exploration',
                  '(With/Without/Union/WithUnion/WithValue/WithInt/WithUint/WithFloat/WithString over indexes, columns and missing names) evaluated '
                  'by the C04 set-algebra model. Oracle: the offsets passed to the callback are exactly {selected rows holding a value}, each once; '
                  "the values read at the callback equal the model's and are non-decreasing. non-trivial = >=2 visited rows share a value after some "
-                 'row was overwritten or deleted since the index was created; distinct = hash of the trace',
+                 'row was overwritten or deleted since the index was created; distinct = hash of the trace | parallel creation (TestC16Parallel): '
+                 'the sort index is created (dropped, re-created) while 1..4 writers re-key, delete and insert rows over 2..4 blocks; judged at '
+                 'quiescence',
          'assumptions': ['quiescent checks (no writer runs during Ascend)'],
          'tests': [{'run': '^TestC16$',
                     'checks': {'quick': 300, 'thorough': 3000},
                     'shards': {'quick': 1, 'thorough': 16},
                     'timeout': {'quick': 900, 'thorough': 3400},
-                    'env': {'GOMAXPROCS': 1}}]},
+                    'env': {'GOMAXPROCS': 1}},
+                   {'run': '^TestC16Parallel$',
+                    'checks': {'quick': 60, 'thorough': 1500},
+                    'shards': {'quick': 1, 'thorough': 2},
+                    'timeout': {'quick': 900, 'thorough': 3400},
+                    'shrinktime': '5s'}]},
  'C17': {'level': 'exploration',
          'rule': 'generated cases (16 run concurrently, each with its own collection and REAL background vacuum): cleanup interval in {1,5,20} ms; '
                  '2..12 rows drawn from {no TTL, TTL 0, short TTL 10-60 ms, long TTL >= 1 h, 2 s TTL extended by 1 h right away, long TTL re-set to '
@@ -502,14 +538,22 @@ CHECKS = {'C01': {'level': 'exploration',
                  'follower with a cleanup interval of 1 h replays every commit the primary emits as it arrives; once the primary has removed every '
                  'expired row (and again after rows without a TTL re-used their offsets) primary and follower must hold the same ids at the same '
                  'offsets with bit-identical deadlines and equal Count: what the cleanup removes must reach the change stream. The sampling loop '
-                 'reads the clock BEFORE judging, so a deadline that passes during a pass cannot end the loop early',
+                 'reads the clock BEFORE judging, so a deadline that passes during a pass cannot end the loop early | since round 5: rows whose '
+                 'short TTL is taken away again with SetTTL(0) / TTL().Set(0) must never expire | TestC17PooledClock: K nested read-only queries put '
+                 'K pooled transaction objects into use, 1.3-1.7 s later K nested inserts give their rows a TTL slightly longer than that idle '
+                 'period: each row must be present while "call time + ttl" is more than a second away',
          'assumptions': ['wall-clock property: margins (1 s safety guard band, 10 s liveness bound = >200x the expected latency) instead of a clock '
                          'hook; a run on a machine stalled for more than the margins would be inconclusive, never a violation of safety',
                          'timing is not reproducible bit-for-bit; the case (rows, TTLs, interval, mode) is'],
          'tests': [{'run': '^TestC17$',
                     'checks': {'quick': 30, 'thorough': 150},
                     'shards': {'quick': 1, 'thorough': 2},
-                    'timeout': {'quick': 900, 'thorough': 3400}}]},
+                    'timeout': {'quick': 900, 'thorough': 3400}},
+                   {'run': '^TestC17PooledClock$',
+                    'checks': {'quick': 3, 'thorough': 20},
+                    'shards': {'quick': 1, 'thorough': 2},
+                    'timeout': {'quick': 900, 'thorough': 3400},
+                    'shrinktime': '5s'}]},
  'C18': {'level': 'exploration',
          'rule': 'generated concurrent programs (rapid): 4..16 goroutines drawn from 11 worker kinds - transactions growing the collection across '
                  'blocks (with bulk deletes and reuse), point reads of every column kind, filtered iteration (index / typed / value filters), '
@@ -525,7 +569,8 @@ CHECKS = {'C01': {'level': 'exploration',
                  'two further targeted workloads (not tied to a listed finding): block growth (17 000-row inserts) beside commits on existing blocks '
                  'and snapshots; index build beside readers of that very index through the Go read paths (Row.Bool(index), txn.Bool(index).Get() in '
                  'Range, WithValue(index)) - the assembly bitmap kernels behind With/Without/Union are invisible to the race detector; readers are '
-                 'gated so that they never name an unregistered index',
+                 'gated so that they never name an unregistered index | since round 5: failing inserts (row callback returns an error) and '
+                 'rolled-back inserting transactions in the insert/delete worker and in a targeted workload',
          'assumptions': ['the race detector only reports races that actually execute in the run',
                          "which listed finding a report belongs to is decided by the unsynchronised mutator's function name (known_findings.txt "
                          'race=<regex>)'],
@@ -554,7 +599,9 @@ CHECKS = {'C01': {'level': 'exploration',
                  'counts), enum and record columns; DeleteAll bulk deletes | parallel creation (TestC19Parallel): 2..8 goroutines create triggers '
                  '(and indexes) at the same moment, 100..600 rounds per case; afterwards one committed store and one committed row deletion must '
                  'reach every trigger exactly once with the stored value, every created trigger/index can be dropped, and nothing is called after '
-                 'its drop',
+                 'its drop | since round 5: a trigger created / dropped at the moment the next committing transaction stands in front of its first '
+                 'block latch (yield point commit:pre-latch, issued from the committing goroutine): the created one must be told everything of that '
+                 'commit, the dropped one nothing',
          'assumptions': ['bool columns are not watched (a false store is encoded as the delete op-code by design)',
                          'stores into a row that the same transaction also deletes are not judged (only its single delete call is)'],
          'tests': [{'run': '^TestC19$',
